@@ -325,6 +325,22 @@ def run_item(item):
                         m = U.mk(SMG, atoms, bonds, bstereo=[("PlanarBond", RS.apply(t, q), 0)])
                         roundtrip(m, out, item, "ez" + ("/scattered-ids" if pool is POOL2 else ""), bond_orders=True,
                                   need_bond_stereo=True)
+        # double bonds in three-membered rings (the ring atom is a substituent of BOTH ends): 1-fluoro-2-chlorocyclopropene and
+        # 3-methyl-2H-azirine (lone pair on N), every spelling; and dihydrogen next to an alkene (an H-H bond is a bond)
+        cp = [(1, "C"), (2, "C"), (3, "C"), (4, "F"), (5, "Cl"), (6, "H"), (7, "H")]
+        cpb = [(1, 2), (1, 3), (2, 3), (1, 4), (2, 5), (3, 6), (3, 7)]
+        az = [(1, "C"), (2, "N"), (3, "C"), (4, "C"), (6, "H"), (7, "H"), (8, "H"), (9, "H"), (10, "H")]
+        azb = [(1, 2), (1, 3), (2, 3), (1, 4), (3, 6), (3, 7), (4, 8), (4, 9), (4, 10)]
+        for atoms_, bonds_, t in ((cp, cpb, (3, 4, 1, 2, 3, 5)), (az, azb, (3, 4, 1, 2, 3, None))):
+            for q in sorted(RS.ROT("PlanarBond")):
+                m = U.mk(SMG, atoms_, bonds_, bstereo=[("PlanarBond", RS.apply(t, q), 0)])
+                roundtrip(m, out, item, "ez-three-ring", bond_orders=True, need_bond_stereo=True)
+        h2a = [(1, "C"), (2, "C"), (3, "F"), (4, "H"), (5, "Cl"), (6, "H"), (20, "H"), (21, "H")]
+        h2b = [(1, 2), (1, 3), (1, 4), (2, 5), (2, 6), (20, 21)]
+        for t in ((3, 4, 1, 2, 5, 6), (3, 4, 1, 2, 6, 5)):
+            for bo in (False, True):
+                roundtrip(U.mk(SMG, h2a, h2b, bstereo=[("PlanarBond", t, 0)]), out, item, "ez+dihydrogen", bond_orders=bo, need_bond_stereo=bo)
+        roundtrip(U.mk(SMG, [(1, "H"), (2, "H")], [(1, 2)]), out, item, "dihydrogen")
         # an open-shell molecule keeps its isolated double bond: CH3-CH=CH-CH2-CH2(.) (the radical centre is not allylic), E and Z,
         # with the radical carbon early and late in the atom order
         for first in (False, True):
